@@ -33,6 +33,13 @@ def seq(vals, as_="tuple"):
     return dict(t="seq", v=[S(v) if not isinstance(v, dict) else v for v in vals], **{"as": as_})
 
 
+def nf_py(e):
+    """a non-finite number as Python float / numpy float32 / numpy float64"""
+    x = float(e["nf"])
+    ty = e.get("ty", "py")
+    return np.float32(x) if ty == "f32" else np.float64(x) if ty == "f64" else x
+
+
 def arg_py(a):
     t = a["t"]
     if t == "none":
@@ -43,6 +50,8 @@ def arg_py(a):
         if a.get("np"):
             return np.int64(int(x)) if isint else np.float64(float(x))
         return int(x) if isint else float(x)
+    if t == "nfscalar":
+        return nf_py(a)
     if t == "badtype":
         return {"str": "abc", "dict": {"a": 1}, "set": {1, 2}, "none": None, "obj": object()}[a["v"]]
     out = []
@@ -51,7 +60,7 @@ def arg_py(a):
             if "bad" in e:
                 out.append({"str": "a", "none": None, "complex": 1j}[e["bad"]])
             else:
-                out.append(float(e["nf"]))
+                out.append(nf_py(e))
         else:
             x = F(e)
             out.append(int(x) if (a.get("int") and x.denominator == 1) else float(x))
@@ -66,10 +75,18 @@ def arg_py(a):
     return tuple(out)
 
 
+K_REPS = [None, None, None, "int8", "int32", "int64", "uint8", "uint64"]
+
+
 def k_py(k):
     if k["t"] == "int":
-        return int(k["v"])
-    return {"float": 1.0, "str": "1", "npint": np.int64(1), "none": None, "frac": 2.5}[k["v"]]
+        rep = k.get("rep")
+        if rep is None:
+            return int(k["v"])
+        if rep.startswith("u"):          # 256 and 2**64 are multiples of 4: the same quarter turn
+            return getattr(np, rep)(int(k["v"]) % 256)
+        return getattr(np, rep)(int(k["v"]))
+    return {"float": 1.0, "str": "1", "npfloat": np.float64(1.0), "none": None, "frac": 2.5}[k["v"]]
 
 
 def elem_coq(e):
@@ -507,8 +524,9 @@ def run_history(case):
         if st_cp == "ok":
             here += invariants(new, "cp")
         # expectation from the documented maps
-        exp = sim_state(sim, st)
         nf = st.get("nonfinite", False)
+        # a step with a non-finite (or overflowing) argument must be refused like any malformed step
+        exp = None if nf else sim_state(sim, st)
         rot_now = rot_seen or st["op"] == "rotate"
         sc = mag(sim, st)
         for form, ok, o in (("ip", st_ip == "ok", obs_ip), ("cp", st_cp == "ok", obs_cp if not via_mesh else obs_ip)):
@@ -528,16 +546,14 @@ def run_history(case):
             sc2 = max([sc] + [abs(x) for x in exp["reg"]["lo"] + exp["reg"]["hi"]])
             if not matches(new_root_obs, dict(exp, type="mesh"), not rot_now, sc2):
                 here.append("affine-map")
-        if nf:
-            here = [c_ for c_ in here if c_ == "nonfinite-argument-accepted"]
         oracle += here
         trace.append(dict(step=idx, ip=st_ip, copy=st_cp, after_inplace=obs_ip, after_copy=new_root_obs,
                           clauses=sorted(set(here))))
-        if not nf and not nonfinite:
+        if st.get("overflow") or any(o_ is not None and has_nan(o_) for o_ in (obs_ip, obs_cp)):
+            nonfinite = True      # outside the Q model: the history stays oracle-only
+        if not nonfinite:
             coq_steps.append(f"({g.b(st['ip'])}, {step_coq(st)}, {opt_ostate_coq(obs_ip)}, {opt_ostate_coq(obs_cp)})")
         sig.append((st["op"], st["ip"], st_ip == "ok", st.get("cls", "")))
-        if nf:
-            nonfinite = True
         # continue the history with the form the step asks for
         adv_ok = st_ip == "ok" if (st["ip"] or via_mesh) else st_cp == "ok"
         if adv_ok:
@@ -831,7 +847,8 @@ def gen_valid_step(rng, s, tame):
         # distance to the reference point): far reference points only where no tolerance test
         # (subregion setter) reads the result
         ref = seq(rand_point(rng, s, tame, far_ok=(not tame and not s["subs"])), rng.choice(["tuple", "list", "array"]))
-    return dict(op="rotate", ax1=a1, ax2=a2, k=dict(t="int", v=k), ref=ref, cls=f"k{k % 4}" + ("-ref" if ref["t"] != "none" else ""))
+    return dict(op="rotate", ax1=a1, ax2=a2, k=dict(t="int", v=k, rep=rng.choice(K_REPS)), ref=ref,
+                cls=f"k{k % 4}" + ("-ref" if ref["t"] != "none" else ""))
 
 
 INT_FACTORS = [F(2), F(-1), F(3), F(-2), F(1), F(-3), F(2), F(-1), F(1, 2), F(-1, 2)]
@@ -888,6 +905,102 @@ def gen_int_step(rng, s):
     ref = dict(t="none") if rng.random() < 0.5 else int_arg(rng, point())
     return dict(op="rotate", ax1=a1, ax2=a2, k=dict(t="int", v=k), ref=ref,
                 cls=f"int-k{k % 4}" + ("-ref" if ref["t"] != "none" else ""))
+
+
+NF_VALUES = ["nan", "inf", "-inf"]
+NF_TYPES = ["py", "f32", "f64"]
+
+
+def nf_variants(s):
+    """every place a non-finite number can enter a step of this state: (name, step without nf value)"""
+    nd = len(s["reg"]["lo"])
+    dims = s["reg"]["dims"]
+    out = []
+
+    def seq_with(e, pos, fill=F(1)):
+        v = [S(fill)] * nd
+        v[pos] = e
+        return v
+    for val in NF_VALUES:
+        for ti, ty in enumerate(NF_TYPES):
+            e = dict(nf=val, ty=ty)
+            sc = dict(t="nfscalar", nf=val, ty=ty)
+            pos = ti % nd
+            as_ = ["tuple", "list", "tuple"][ti]
+            out.append((f"factor-scalar/{val}/{ty}", dict(op="scale", f=sc, ref=dict(t="none"))))
+            out.append((f"factor-axis/{val}/{ty}",
+                        dict(op="scale", f=dict(t="seq", v=seq_with(e, pos, F(2)), **{"as": as_}),
+                             ref=dict(t="seq", v=[S(0)] * nd, **{"as": "tuple"}))))
+            out.append((f"factor-all/{val}/{ty}",
+                        dict(op="scale", f=dict(t="seq", v=[e] * nd, **{"as": as_}), ref=dict(t="none"))))
+            out.append((f"vector/{val}/{ty}",
+                        dict(op="translate", v=dict(t="seq", v=seq_with(e, pos, F(0)), **{"as": as_}))))
+            out.append((f"scale-ref/{val}/{ty}",
+                        dict(op="scale", f=dict(t="scalar", v=S(2), int=True),
+                             ref=dict(t="seq", v=seq_with(e, pos, F(0)), **{"as": as_}))))
+            out.append((f"scale-ref-neg/{val}/{ty}",
+                        dict(op="scale", f=dict(t="scalar", v=S(F(-1, 2))),
+                             ref=dict(t="seq", v=seq_with(e, pos, F(0)), **{"as": as_}))))
+            if nd == 1:
+                out.append((f"vector-scalar/{val}/{ty}", dict(op="translate", v=sc)))
+                out.append((f"scale-ref-scalar/{val}/{ty}",
+                            dict(op="scale", f=dict(t="scalar", v=S(2)), ref=sc)))
+            if nd >= 2:
+                a, b = dims[ti % nd], dims[(ti + 1) % nd]
+                for k in (1, 2):
+                    # the non-finite element sits at one of the two axes the turn reads
+                    out.append((f"rot-ref/{val}/{ty}/k{k}",
+                                dict(op="rotate", ax1=a, ax2=b, k=dict(t="int", v=k),
+                                     ref=dict(t="seq", v=seq_with(e, dims.index(a if k == 1 else b), F(0)),
+                                              **{"as": as_}))))
+    return out
+
+
+def gen_nf_step(rng, s):
+    name, st = rng.choice(nf_variants(s))
+    st = dict(st, nonfinite=True, cls="nf-" + name.split("/")[0])
+    return st
+
+
+def directed_nonfinite():
+    """fixed part of every run: NaN / +inf / -inf (Python float, numpy float32 / float64) in every argument
+    position of every operation, on a region, a 1-d region, a mesh with subregions and two fields, in both
+    forms, inside a short history (valid step, refused step, valid step: the refused one changes nothing);
+    plus finite factors that overflow (oracle only: outside the rational model)"""
+    cases = []
+    roots = dict(directed_roots())
+    pick = ["region3", "region1", "mesh3-subs", "field3-vector", "field3-scalar-subs"]
+    for name in pick:
+        root = roots[name]
+        s = root_sim(root)
+        nd = len(root["p1"])
+        tame = bool(s["subs"])
+        move = dict(op="translate", v=seq([F(1)] * nd), ip=True, cls="nf-frame")
+        grow = dict(op="scale", f=dict(t="scalar", v=S(2), int=True), ref=dict(t="none"), ip=False, cls="nf-frame")
+        vs = nf_variants(s)
+        for i, (vn, st) in enumerate(vs):
+            st = dict(st, nonfinite=True, cls="nf-" + vn.split("/")[0], ip=(i % 2 == 0))
+            if i % 3 == 0:
+                steps = [move, st, grow]
+            elif i % 3 == 1:
+                steps = [st, move]
+            else:
+                steps = [grow, st]
+            cases.append(dict(kind="history", root=root, steps=steps, tame=tame, directed="nonfinite/" + name))
+    # overflow: a finite factor whose product with the edges is not finite any more
+    big = dict(type="region", p1=[S(0), S(0), S(0)], p2=[S(40), S(20), S(100)], dims=["x", "y", "z"],
+               units=["m", "m", "m"])
+    bigm = dict(big, type="mesh", n=[4, 2, 5], bc="", subs=[["a", [[S(0), S(0), S(0)], [S(20), S(20), S(40)]]]])
+    for root in (big, bigm):
+        for ip in (True, False):
+            for f in (dict(t="scalar", v=S(F(1e308))),
+                      dict(t="seq", v=[S(1), S(F(-1e308)), S(1)], **{"as": "tuple"}),
+                      dict(t="seq", v=[S(F(1.7e308))] * 3, **{"as": "array"})):
+                for ref in (dict(t="none"), dict(t="seq", v=[S(0)] * 3, **{"as": "tuple"})):
+                    st = dict(op="scale", f=f, ref=ref, ip=ip, nonfinite=True, overflow=True, cls="nf-overflow")
+                    cases.append(dict(kind="history", root=root, tame=False, directed="nonfinite/overflow",
+                                      steps=[st, dict(op="translate", v=seq([F(1)] * 3), ip=ip, cls="nf-frame")]))
+    return cases
 
 
 def gen_bad_step(rng, s):
@@ -954,7 +1067,7 @@ def gen_bad_step(rng, s):
     elif cls == "unknown-axis":
         a2 = "q"
     elif cls == "k":
-        k = dict(t="bad", v=rng.choice(["float", "str", "npint", "none", "frac"]))
+        k = dict(t="bad", v=rng.choice(["float", "str", "npfloat", "none", "frac"]))
     elif cls == "ref-scalar":
         ref = dict(t="scalar", v=S(1))
     elif cls == "ref-type":
@@ -1003,7 +1116,7 @@ def gen_history(rng, typ, tier, length, p_bad, integer=False):
                 steps.append(st)
                 continue
         if rng.random() < p_bad:
-            st = gen_bad_step(rng, s)
+            st = gen_nf_step(rng, s) if rng.random() < 0.25 else gen_bad_step(rng, s)
             st["ip"] = rng.random() < 0.5
             steps.append(st)
             continue
@@ -1111,7 +1224,7 @@ def unmapped_rot_step(rng, s):
     if not c:
         return None
     st = dict(rng.choice(c))
-    st["k"] = dict(t="int", v=rng.randint(-9, 9))
+    st["k"] = dict(t="int", v=rng.randint(-9, 9), rep=rng.choice(K_REPS))
     return st
 
 
@@ -1160,7 +1273,7 @@ def directed_integer():
 
 def generate(rng, tier):
     quick = tier == "quick"
-    cases = directed_refusals() + directed_integer()
+    cases = directed_refusals() + directed_integer() + directed_nonfinite()
     # directed single steps: every factor sign x form x reference on a fixed region (exact regime)
     for f in [F(-1), F(-2), F(-1, 2), F(0), F(3)]:
         for ref in [dict(t="none"), seq([F(0), F(0), F(0)]), seq([F(2 ** 20), F(-3 * 2 ** 18), F(5)])]:
@@ -1181,9 +1294,6 @@ def generate(rng, tier):
         cases.append(gen_history(rng, typ, tier, length, p_bad=rng.choice([0.0, 0.15, 0.15, 0.4]),
                                  integer=(i % 3 == 1)))
     # known-finding streams, small and rare
-    for nf in (["nan-factor", "inf-factor", "nan-vector"] if quick else
-               ["nan-factor", "inf-factor", "nan-vector", "-inf-factor", "nan-axis-factor"]):
-        cases.append(dict(kind="nonfinite", which=nf))
     cases.append(dict(kind="aliased", which="two-fields-one-mesh"))
     cases.append(dict(kind="aliased", which="mesh-region-direct"))
     cases.append(dict(kind="mesh-partial-far"))
@@ -1220,9 +1330,6 @@ def run_case(case):
     if kind == "far-collapse":
         return run_far_collapse(case)
     tags = []
-    if kind == "nonfinite":
-        case = nonfinite_case(case["which"])
-        tags = ["C13-nonfinite-arguments"]
     r = run_history(case)
     if r["oracle"] and kind == "history" and len(case["steps"]) > 1:
         small = shrink(case, r["oracle"])
